@@ -331,7 +331,7 @@ def run(chk):
         out_ = set()
         for n in own_nodes(gdi.node):
             if isinstance(n, ast.Call) and norm(n.func) == fname and len(n.args) == 1:
-                a = n.args[0]
+                a = inline_locals(n.args[0], gdi.node)
                 if isinstance(a, ast.Subscript) and isinstance(a.slice, ast.Slice) and a.slice.step is None:
                     lo_ = a.slice.lower.value if isinstance(a.slice.lower, ast.Constant) else None if a.slice.lower is None else '?'
                     hi_ = a.slice.upper.value if isinstance(a.slice.upper, ast.Constant) else None if a.slice.upper is None else '?'
